@@ -118,3 +118,99 @@ pub fn run(args: &[String]) {
         writeln!(out, "{line}").unwrap();
     }
 }
+
+/// neighbours of a record: one flag flipped (global / stream / topic), the stream table dropped, the topic
+/// table dropped, the whole record dropped
+fn neighbours(idx: u64) -> Vec<u64> {
+    let g = idx / NS;
+    let sr = idx % NS;
+    let mut out = vec![];
+    if g == 0 {
+        return vec![NS + sr]; // no record -> a record without any flag
+    }
+    out.push(sr); // record dropped
+    let f = g - 1;
+    for b in 0..10 {
+        out.push((1 + (f ^ (1 << b))) * NS + sr);
+    }
+    if sr == 0 {
+        out.push(g * NS + 1); // a stream record appears (no flags, no topic table)
+        return out;
+    }
+    out.push(g * NS); // stream table dropped
+    let x = sr - 1;
+    let sf = x / 18;
+    let tc = x % 18;
+    for b in 0..6 {
+        out.push(g * NS + 1 + (sf ^ (1 << b)) * 18 + tc);
+    }
+    if tc != 0 {
+        out.push(g * NS + 1 + sf * 18); // topic table dropped
+    }
+    if tc >= 2 {
+        let tf = tc - 2;
+        for b in 0..4 {
+            out.push(g * NS + 1 + sf * 18 + 2 + (tf ^ (1 << b)));
+        }
+    } else {
+        out.push(g * NS + 1 + sf * 18 + 2); // a topic record appears
+    }
+    out
+}
+
+/// perm-update <from> <to> <stride> : table maintenance. For every record A of the range and every
+/// neighbour B: the real tables after `init(A); update(B)` must answer every rule exactly like the real
+/// tables after `init(B)` on a fresh Permissioner (changes apply to the next request, nothing of the old
+/// record survives), and after `init(A); delete` like an empty Permissioner.
+pub fn run_update(args: &[String]) {
+    std::panic::set_hook(Box::new(|_| {}));
+    let from: u64 = args[0].parse().unwrap();
+    let to: u64 = args[1].parse().unwrap();
+    let stride: u64 = args.get(2).map(|s| s.parse().unwrap()).unwrap_or(1);
+    let out = std::io::stdout();
+    let mut out = std::io::BufWriter::new(out.lock());
+    let empty = perm_gen::eval_all(&Permissioner::default(), U, S, T);
+    let (mut pairs, mut bad) = (0u64, 0u64);
+    let mut idx = from;
+    while idx < to {
+        let a = decode(idx, S, T);
+        let mut p = Permissioner::default();
+        p.init_permissions_for_user(U, a.clone());
+        p.delete_permissions_for_user(U);
+        let r = perm_gen::eval_all(&p, U, S, T);
+        pairs += 1;
+        if r != empty {
+            bad += 1;
+            writeln!(out, "MISMATCH-DELETE a={idx} rules={}", diff_rules(&r, &empty)).unwrap();
+        }
+        for b_idx in neighbours(idx) {
+            let b = decode(b_idx, S, T);
+            let mut p = Permissioner::default();
+            p.init_permissions_for_user(U, a.clone());
+            p.update_permissions_for_user(U, b.clone());
+            let got = perm_gen::eval_all(&p, U, S, T);
+            let mut q = Permissioner::default();
+            q.init_permissions_for_user(U, b);
+            let want = perm_gen::eval_all(&q, U, S, T);
+            pairs += 1;
+            if got != want {
+                bad += 1;
+                if bad <= 50 {
+                    writeln!(out, "MISMATCH-UPDATE a={idx} b={b_idx} rules={}", diff_rules(&got, &want)).unwrap();
+                }
+            }
+        }
+        idx += stride;
+    }
+    writeln!(out, "DONE pairs={pairs} bad={bad}").unwrap();
+}
+
+fn diff_rules(got: &[u8], want: &[u8]) -> String {
+    perm_gen::RULES
+        .iter()
+        .zip(got.iter().zip(want.iter()))
+        .filter(|(_, (g, w))| g != w)
+        .map(|(n, (g, w))| format!("{n}:{g}!={w}"))
+        .collect::<Vec<_>>()
+        .join(",")
+}
